@@ -17,7 +17,7 @@ import vcommon as V
 
 INTERESTING = [0, 1, 2, 3, 4, 7, 8, 15, 16, 31, 32, 63, 64, 100, 127, 128, 129, 255, 256, 257, 511, 512, 1000, 1023, 1024, 1025,
                1500, 4095, 4096, 32767, 32768, 65535]
-HEXOPS = ('frame', 'classify', 'flow', 'esp32', 'relay')
+HEXOPS = ('frame', 'classify', 'flow', 'esp32')
 
 def split(text):
     res = []; cur = None
@@ -126,11 +126,21 @@ class Mut:
                 if ad and r.random() < 0.5: ls[r.choice(ad)] = 'adv %d' % amt
                 else: ls.insert(r.choice(mu) + 1, 'adv %d' % amt)
             elif k < 0.94 and donors:
-                have = set(l.split()[0] for l in ls)      # only operations of a kind the scenario already uses (flow / tick need the automata its own prologue creates)
-                d = r.choice(donors); dm = [l for l in d if self.mutable(l) and l.split()[0] in have]
+                # only operations of a kind, and on an interface, the scenario already uses (flow / tick / table calls need
+                # the automata its own prologue creates)
+                have = set(l.split()[0] for l in ls); ctxs = set(l.split()[1] for l in ls if len(l.split()) > 1)
+                d = r.choice(donors); dm = [l for l in d if self.mutable(l) and l.split()[0] in have and (len(l.split()) < 2 or l.split()[1] in ctxs or l.split()[0] == 'adv')]
                 if dm:
                     s = r.randrange(len(dm)); seg = dm[s:s + r.choice([1, 2, 5, 20])]
                     p = r.choice(mu) + 1; ls[p:p] = seg
+            elif k < 0.97 and self.cfg.get('num'):
+                # a numeric argument of an API call, inside the range the property quantifies over
+                spec = self.cfg['num']; cand = [i for i in mu if ls[i].split()[0] in spec]
+                if cand:
+                    i = r.choice(cand); t = ls[i].split(); pos, (lo, hi) = r.choice(list(spec[t[0]].items()))
+                    if pos < len(t):
+                        v = r.choice([lo, hi, lo + 1, hi - 1, r.randint(lo, hi), self.val(32), self.val(16)])
+                        t[pos] = str(min(hi, max(lo, v))); ls[i] = ' '.join(t)
             elif self.cfg.get('mtu'):
                 cf = [i for i, l in enumerate(ls) if re.match(r'cfg \d+ ', l) and 'mtu=' in l]
                 if cf:
@@ -184,6 +194,7 @@ def explore(prop, pid, batches, seconds, seed, nproc=None):
         for name, lines in split(text):
             if skip and skip.search(name): continue
             if sum(len(l) for l in lines) > 400000: continue
+            if cfg.get('skip_ops') and any(l.split()[0] in cfg['skip_ops'] for l in lines): continue     # e.g. states / timestamps set by hand: removing an advance would put them into the future
             seeds.append((name, lines, meta))
     if not seeds: return [], info
     mut = Mut(rng, cfg)
